@@ -11,6 +11,7 @@ echo $props | tr ' ' '\n' | xargs -P 10 -I{} sh -c "timeout 300 ./check {} > $ou
 for p in $props; do
   rc=$(cat $out/$p.rc)
   echo "== $p rc=$rc"
-  grep -E "^(C[0-9]+-R[0-9]+ |VIOLATION|ANALYSIS-ERROR|KNOWN)" $out/$p.txt | head -8
+  grep -E "^(C[0-9]+-R[0-9]+ |KNOWN)" $out/$p.txt | head -8
+  grep -E "^(VIOLATION|ANALYSIS-ERROR)" $out/$p.txt | head -4
 done
 rm -rf $out
